@@ -260,9 +260,9 @@ Example C16_json_value_nonvacuous :
   json_ok true v
   /\ json_encode true v = Ok (b "{""a\u003c"":[-12,2.5,null,true,""x"",[]],""b"":{}}")
   /\ json_parse (b "{""a\u003c"":[-12,2.5,null,true,""x"",[]],""b"":{}}")
-      = Some (JObj [([97; 60], JArr [JNum true 12 0; JNum false 25 (-1); JNull; JBool true; JStr [120]; JArr []]); ([98], JObj [])])
+      = Some (JvObj [([97; 60], JvArr [JvNum true 12 0; JvNum false 25 (-1); JvNull; JvBool true; JvStr [120]; JvArr []]); ([98], JvObj [])])
   /\ jv_of_value v = json_parse (b "{""a\u003c"":[-12,2.5,null,true,""x"",[]],""b"":{}}")
-  /\ json_parse (b "1") = json_parse (b " 10e-1 ") /\ json_parse (b "1.0") = Some (JNum false 1 0) /\ json_parse (b "-0") = Some (JNum true 0 0)
+  /\ json_parse (b "1") = json_parse (b " 10e-1 ") /\ json_parse (b "1.0") = Some (JvNum false 1 0) /\ json_parse (b "-0") = Some (JvNum true 0 0)
   /\ json_encode true (VList 0 []) = Ok (b "null") /\ json_encode false (VList 0 []) = Ok (b "[]")
   /\ json_parse (b "[1,]") = None /\ json_parse (b "01") = None /\ json_parse (b "{""a"":1} x") = None /\ json_parse (b "1.") = None.
 Proof. vm_compute. repeat split; reflexivity. Qed.
